@@ -232,3 +232,20 @@ fn cryptoutil_be_word_io() {
     while i < 24 { assert!(g[i] == (v[i / 8] >> (8 * (7 - i % 8))) as u8); i += 1; }
     kani::cover!(true);
 }
+
+// xor_array64_mut (iter_mut().zip(); contract-only stub in unit argon2): lhs'[i] == lhs[i] ^ rhs[i] for the 128-word Argon2 block
+// @harness props=C11,C20 kind=full tier=quick timeout=600
+#[kani::proof]
+#[kani::unwind(130)]
+fn cryptoutil_xor_array64_mut_128() {
+    let a0: [u64; 128] = kani::any();
+    let b: [u64; 128] = kani::any();
+    let mut a = a0;
+    xor_array64_mut(&mut a, &b);
+    let mut i = 0;
+    while i < 128 {
+        assert!(a[i] == a0[i] ^ b[i]);
+        i += 1;
+    }
+    kani::cover!(true);
+}
